@@ -116,8 +116,22 @@ def multi_interp_case(rng):
     return chain_case([d], env=gen.ENV, tail=("outdocs",))
 
 
+def decode_edge_case(rng):
+    """$decode with edge texts in every format (no document, several documents, blank, invalid, a bare scalar)"""
+    f = rng.choice(["json", "jsonl", "json-pretty", "yaml", "yml", "toml", "nosuch", ""])
+    t = rng.choice(["", " ", "\n", "null", "[]", "{}", "1 2", "{} {}", "---", "---\n---", "a: 1\n---\nb: 2", "a = 1\n---\n", "{", "]", "\t", "# c", "~",
+                    "a: &x [*x]", 5, None, ["{}"], {"a": 1}])
+    node = {"$decode": f, "$value": t}
+    if rng.random() < 0.2:
+        node["extra"] = 1
+    d = {"d": node} if rng.random() < 0.7 else {"d": [node, {"$decode": f}]}
+    return chain_case([d], env=gen.ENV, tail=("outdocs",))
+
+
 def gen_case(rng):
     r = rng.random()
+    if r < 0.04:
+        return decode_edge_case(rng)
     if r < 0.08:
         return repeat_edge_case(rng)
     if r < 0.16:
